@@ -124,6 +124,9 @@ func (p *propC05) Gen(idx int) *Scenario {
 	r := NewRng(p.seed, "C05", idx)
 	ft := supportedFileTypes[idx%len(supportedFileTypes)]
 	mf := genModelFile(r, MFOpts{InDomain: r.Chance(1, 2), FT: ft, MaxMsgs: r.Range(1, 20), MaxFields: r.Range(1, 12)})
+	if idx%211 == 3 {
+		growSlice(r, mf, MFOpts{InDomain: true, MaxFields: 6}) // > 64 KiB of records, > 512 messages of one kind
+	}
 	arch := "le"
 	if (idx/len(supportedFileTypes))%2 == 1 {
 		arch = "be"
@@ -489,6 +492,9 @@ func (p *propC06) Gen(idx int) *Scenario {
 		m := MMsg{Global: pr.mn, Fields: genMsgFields(r, pr.mn, o)}
 		pos := r.Intn(len(mf.Msgs) + 1)
 		mf.Msgs = append(mf.Msgs[:pos], append([]MMsg{m}, mf.Msgs[pos:]...)...)
+	}
+	if idx%211 == 3 {
+		growSlice(r, mf, MFOpts{InDomain: true, MaxFields: 6})
 	}
 	arch := "le"
 	if (idx/len(p.pairs))%2 == 1 {
